@@ -237,6 +237,47 @@ class C17(Check):
             meta = {"fam": "exact", "prog": prog, "doc": "", "want": "".join(w + "\n" for w in want)}
             cases.append(Case(cid, simple_run(cid, prog), meta, True, ["shared"]))
 
+    # ------------------------------------------------------------ windows: names bound to one array and then shortened by pop /
+    # popfirst share storage but differ in length; several of them inside ONE printed container are each rendered in full
+    def gen_windows(self, rng, n, cases):
+        for k in range(n):
+            base = [V.scalar(rng, False) for _ in range(rng.randint(3, 7))]
+            lines = ["x0 = %s" % pyref.literal(base)]
+            wins = [(0, len(base))]
+            for j in range(1, rng.randint(2, 4)):
+                src = rng.randrange(j)
+                lo, hi = wins[src]
+                lines.append("x%d = x%d" % (j, src))
+                for _ in range(rng.randint(1, 3)):
+                    if hi - lo <= 0:
+                        break
+                    if rng.random() < 0.5:
+                        lines.append("x%d.pop()" % j)
+                        hi -= 1
+                    else:
+                        lines.append("x%d.popfirst()" % j)
+                        lo += 1
+                wins.append((lo, hi))
+            vals = [base[lo:hi] for lo, hi in wins]
+            want = []
+            for _ in range(3):
+                order = [rng.randrange(len(wins)) for _ in range(rng.randint(2, 4))]
+                shape = rng.choice(["arr", "obj", "nest"])
+                if shape == "arr":
+                    lines.append("print [%s]" % ", ".join("x%d" % j for j in order))
+                    want.append(render([vals[j] for j in order]))
+                elif shape == "obj":
+                    ks = ["k%d" % i for i in range(len(order))]
+                    lines.append("print {%s}" % ", ".join("%s: x%d" % (kk, j) for kk, j in zip(ks, order)))
+                    want.append(render({kk: vals[j] for kk, j in zip(ks, order)}))
+                else:
+                    lines.append("print [%s], %s" % (", ".join("[x%d]" % j for j in order), "x%d" % order[0]))
+                    want.append(render([[vals[j]] for j in order]) + " " + render(vals[order[0]]))
+            prog = "BEGIN { " + "\n ".join(lines) + " }"
+            cid = "wn%d" % k
+            meta = {"fam": "exact", "prog": prog, "doc": "", "want": "".join(w + "\n" for w in want)}
+            cases.append(Case(cid, simple_run(cid, prog), meta, True, ["windows"]))
+
     # ------------------------------------------------------------ cycles
     def gen_cycle(self, rng, n, cases):
         for k in range(n):
@@ -635,6 +676,7 @@ class C17(Check):
         self.gen_cycle(rng, 250 if q else 8000, cases)
         self.gen_effects(rng, 240 if q else 4000, cases)
         self.gen_selectors(rng, 160 if q else 3000, cases)
+        self.gen_windows(rng, 120 if q else 3000, cases)
         return cases
 
     # ------------------------------------------------------------ oracle
